@@ -2,5 +2,7 @@ pub mod c01;
 pub mod c04;
 pub mod c05;
 pub mod c09;
+pub mod c10;
 pub mod c11;
 pub mod c13;
+pub mod c14;
